@@ -125,15 +125,20 @@ def gen(seed, family=None, knobs=None):
     else:
         ips["backup"] = None
     nclients = rnd.randint(1, 3)
+    rnd_k = random.Random(f"{seed}-host-kinds")
     for i in range(nclients):
         si = rnd.randrange(len(subnets))
-        want.append((f"pc_{i + 1}", rnd.choice(["computer", "computer", "server"]), f"{subnets[si][0]}.{21 + i}", si, None))
+        kind_i = rnd.choice(["computer", "computer", "server"])
+        if kind_i == "computer" and i > 0 and rnd_k.random() < 0.2:
+            kind_i = "printer"  # the third host type of the documentation; same software model as a computer
+        want.append((f"pc_{i + 1}", kind_i, f"{subnets[si][0]}.{21 + i}", si, None))
     # C2 suite (separate random stream): a beacon on one client pointing at a C2 server application on the web server
     rnd_c2 = random.Random(f"{seed}-c2-suite")
     c2_beacon_host = c2_server_host = c2_server_ip = None
     if knobs.get("c2", True) and rnd_c2.random() < 0.35:
         c2_beacon_host, c2_server_host, c2_server_ip = "pc_1", "web_srv", ips["web"]
     meta_hosts = {}
+    same_as_previous = {}
     for name, kind, ip, si, fixed in want:
         prefix, gw, sw = subnets[si]
         kw = dict(dur())
@@ -163,6 +168,13 @@ def gen(seed, family=None, knobs=None):
             services = services + [{"type": "dns-client", "options": {"dns_server": ips["db"] if rnd_s.random() < 0.7 else ips["dns"]}}]
         if rnd_s.random() < 0.25 and not any(x["type"] == "ntp-client" for x in services):
             services = services + [{"type": "ntp-client", "options": {"ntp_server_ip": ips["web"]}}]
+        if services and rnd_s.random() < 0.3:
+            services = [dict(x, options=dict(x.get("options") or {}, fixing_duration=rnd_s.choice([0, 1, 3, 4]))) if rnd_s.random() < 0.5 else x for x in services]
+        # two hosts of the same kind configured identically (in a YAML file: one block written once and referenced twice)
+        if fixed is None and name != c2_beacon_host:
+            if same_as_previous.get(kind) and rnd_s.random() < 0.35:
+                services, apps = copy.deepcopy(same_as_previous[kind])
+            same_as_previous[kind] = (copy.deepcopy(services), copy.deepcopy(apps))
         if knobs.get("c2", True):
             if name == c2_beacon_host:
                 apps = apps + [{"type": "c2-beacon", "options": {"c2_server_ip_address": c2_server_ip, "keep_alive_frequency": rnd_c2.choice([2, 3, 5])}}]
@@ -350,6 +362,9 @@ def gen(seed, family=None, knobs=None):
     if rnd.random() < 0.6:
         nodes_opts["monitored_traffic"] = {"icmp": ["NONE"], "tcp": rnd.sample(["DNS", "HTTP", "POSTGRES_SERVER", "FTP"], 2)}
     rnd_o = random.Random(f"{seed}-node-level-obs-overrides")  # separate stream: older seeds keep their scenarios otherwise
+    for key in ("num_services", "num_applications", "num_folders", "num_files", "num_nics"):
+        if rnd_o.random() < 0.12:
+            nodes_opts[key] = 0  # a valid count: that part of every host observation is absent
 
     def acl_overrides(d):
         if rnd_o.random() < 0.4:
